@@ -43,6 +43,10 @@ func propC09TwoWriters(r *Run, rr *randRecorder) {
 		return o
 	}
 	a, b := mk(0, pa), mk(1, pb)
+	if r.Choose("tw-same-user", 2) == 1 {
+		propC09SameUser(r, w, pa, pb, users[0], cfg)
+		return
+	}
 	run := func(o *wop, d *Dir) {
 		if o.kind == "add" {
 			o.err = d.AddUser(o.user, o.pw, false)
@@ -79,4 +83,57 @@ func propC09TwoWriters(r *Run, rr *randRecorder) {
 	r.Steps += 2
 	r.Count("probe:two-writer-durability-runs")
 	r.Nontrivial(fmt.Sprintf("two-writers|%s|%s|%s|%d", cfg.Desc(), a.kind, b.kind, switches))
+}
+
+// propC09SameUser: two writers change the password of the same user. Whoever is acknowledged
+// first is judged at that very moment, with the other writer still somewhere in its call: in
+// every power-loss image the record is complete and carries one of the two new passwords (the
+// other writer's rename may already have replaced this one's) - never the old record, an empty
+// or cut one. A writer must not share scratch state with the writer next to it.
+func propC09SameUser(r *Run, w *World, pa, pb *Dir, user string, cfg Config) {
+	m := w.model[user]
+	_, old, _ := w.userFile(user)
+	pws := []string{"same-user-first", "same-user-second"}
+	errs := make([]error, 2)
+	snaps := make([]*simfs.FS, 2)
+	f := w.fs
+	_, switches := w.interleaveReader(f, func() {
+		errs[0] = pa.UpdateUser(user, pws[0])
+		snaps[0] = f.Clone()
+	}, func(*[]readerObs) {
+		errs[1] = pb.UpdateUser(user, pws[1])
+		snaps[1] = f.Clone()
+	})
+	r.Add("probe:writer-writer-context-switches", switches)
+	what := fmt.Sprintf("two writers on %s: update -> %v || update -> %v", user, errs[0], errs[1])
+	r.Logf("%s", what)
+	limit := 48
+	if r.Tier == "thorough" {
+		limit = 192
+	}
+	images := 0
+	for i := range snaps {
+		if snaps[i] == nil || errs[i] != nil {
+			continue // not acknowledged: C15 judges failures
+		}
+		w.powerLossImages(snaps[i], limit, func(img *simfs.FS, desc string) {
+			images++
+			w.use(img)
+			c0, content := w.classify(user, old, true, m.Aux, pws[0])
+			c1, _ := w.classify(user, old, true, m.Aux, pws[1])
+			if c0 != fcNew && c1 != fcNew {
+				cls := c0
+				if i == 1 {
+					cls = c1
+				}
+				r.Fail("durability/same-user/"+cls.String(), "%s; power loss at the moment writer %d returned success, image [%s]: file of %s is %s (%q)", what, i, desc, user, cls, truncate(content, 80))
+			}
+			r.Count("fault:power-loss")
+		})
+	}
+	w.use(f)
+	r.Add("evaluations", images)
+	r.Steps += 2
+	r.Count("probe:two-writers-same-user-runs")
+	r.Nontrivial(fmt.Sprintf("two-writers-same-user|%s|%d", cfg.Desc(), switches))
 }
